@@ -47,25 +47,30 @@ def snapshot(t):
             repr(t.metadata.origin))
 
 
-def impl_roundtrip(ts, sep, explicit, path_mode, scratch):
-    """-> (text, result dict like blocks_common) using the real write_csv / read_csv"""
+def impl_roundtrip(ts, sep, explicit, path_mode, scratch, na_rep=None, form=0):
+    """-> (text, result dict like blocks_common) using the real write_csv / read_csv.
+    `na_rep`: None = the writer's default; `form` selects how tables and target are handed over: the tables as a
+    list, a tuple, a generator or (one table) the bare Table; a path as str or as pathlib.Path"""
+    import pathlib
     import pdtable
     old = pdtable.CSV_SEP
     try:
         if not explicit:
             pdtable.CSV_SEP = sep
         kw = {"sep": sep} if explicit else {}
+        wkw = dict(kw, **({"na_rep": na_rep} if na_rep is not None else {}))
+        arg = [list(ts), tuple(ts), (t for t in ts), ts[0] if len(ts) == 1 else list(ts)][form % 4]
         with warnings.catch_warnings():
             warnings.simplefilter("ignore")
             if path_mode:
                 p = os.path.join(scratch, "t.csv")
-                pdtable.write_csv(ts, p, **kw)
+                pdtable.write_csv(arg, pathlib.Path(p) if (form // 4) % 2 else p, **wkw)
                 with open(p, newline="") as fh:
                     text = fh.read()
-                src = p
+                src = pathlib.Path(p) if (form // 8) % 2 else p
             else:
                 s = io.StringIO()
-                pdtable.write_csv(ts, s, **kw)
+                pdtable.write_csv(arg, s, **wkw)
                 text = s.getvalue()
                 src = io.StringIO(text)
             res = {"blocks": [], "issues": [], "ending": "exhausted"}
@@ -84,7 +89,7 @@ def judge(ts, sep, explicit, path_mode, case, out, scratch):
     """the property on the real code for one bundle; -> (text, read-back result) when it holds, else None"""
     before = [snapshot(t) for t in ts]
     try:
-        text, res = impl_roundtrip(ts, sep, explicit, path_mode, scratch)
+        text, res = impl_roundtrip(ts, sep, explicit, path_mode, scratch, case.get("na_rep"), case.get("form", 0))
     except Exception as e:  # noqa: BLE001 — write_csv (or the snapshot) raised on a well-formed bundle
         out.evaluations += 1
         out.fail("write_csv raised on a well-formed bundle", case, type(e).__name__ + ": " + str(e)[:200], None,
@@ -105,7 +110,8 @@ def judge(ts, sep, explicit, path_mode, case, out, scratch):
         out.fail("write_csv / read_csv modified a written table", case, after, before, key="modified")
         return None
     got = [b["val"]["table"] for b in res["blocks"] if b["ty"] == "TABLE"]
-    want = [rc.canon_table(t) for t in ts]
+    # the expectation is the generator's own record of each table (for a replayed case: the recorded values)
+    want = [wc.record_of(t) or rc.canon_table(t) for t in ts]
     if res["ending"] != "exhausted" or [b["ty"] for b in res["blocks"]] != ["TABLE"] * len(ts):
         out.fail("reading back the written bundle did not yield exactly its tables", dict(case, text=text),
                  {"ending": res["ending"], "types": [b["ty"] for b in res["blocks"]]}, None, key="blocks")
@@ -116,6 +122,14 @@ def judge(ts, sep, explicit, path_mode, case, out, scratch):
                  got[j] if j >= 0 else got, want[j] if j >= 0 else want, key="roundtrip")
         return None
     return text, res
+
+
+def _na_rep(rng, sep):
+    """the `na_rep` argument: None (the writer's default) or another spelling of a missing-value marker (the theorem
+    holds for every representation that reads back as missing in numeric and datetime columns alike)"""
+    if rng.random() < 0.6:
+        return None
+    return rng.choice([x for x in ["-", "nan", "NaN", "NAN", "nAn", " -", "- ", " nan "] if sep not in x])
 
 
 LONG_ROWS = [255, 256, 257, 1019, 1020, 1021, 1022, 1023, 1024, 1025, 1026, 2047, 2048, 2049, 4095, 4096, 4097, 8191,
@@ -138,28 +152,32 @@ def run(tier, seed, model_ok, translator, search=False):
         for i in range(n):
             sep = rng.choice(wc.SEPS)
             ts = [t for t, _ in wc.wf_bundle(rng, sep)]
-            cases.append((i, sep, ts, rng.random() < 0.5, rng.random() < 0.3))
+            cases.append((i, sep, ts, rng.random() < 0.5, rng.random() < 0.3, _na_rep(rng, sep), rng.randrange(16)))
         # every kind tuple of length <= 2 (<= 3 thorough) x rows in {0, 1, 2} x orientation, deterministically
         k = n
         for kinds in itertools.chain.from_iterable(itertools.product(["text", "onoff", "datetime", "num", "int"], repeat=r)
                                                    for r in ((0, 1, 2, 3) if thorough else (0, 1, 2))):
             for n_row in (0, 1, 2):
                 for tr in (False, True):
-                    t, _ = wc.wf_table(rng, ";", tr, kinds=kinds, n_row=n_row)
-                    cases.append((k, ";", [t], k % 2 == 0, k % 3 == 0))
+                    sep = wc.SEPS[k % len(wc.SEPS)]
+                    t, _ = wc.wf_table(rng, sep, tr, kinds=kinds, n_row=n_row)
+                    cases.append((k, sep, [t], k % 2 == 0, k % 3 == 0, None if k % 5 else _na_rep(rng, sep), k % 16))
                     out.count("enumerated-small-shapes")
                     k += 1
         # long tables: the number of rows has no limit, and nothing may change at a power of two or a buffer size
         sizes = LONG_ROWS if thorough else [1025, 2049] + [rng.choice(LONG_ROWS) for _ in range(2)]
-        for n_row in sizes:
-            kinds = [rng.choice(["text", "onoff", "datetime", "num", "int"]) for _ in range(rng.choice([1, 2]))]
-            t, _ = wc.wf_table(rng, ";", rng.random() < 0.3, kinds=kinds, n_row=n_row)
-            cases.append((k, ";", [t], k % 2 == 0, k % 3 == 0))
-            out.count("long-tables")
+        for n_long, n_row in enumerate(sizes):
+            kinds = [rng.choice(["text", "onoff", "datetime", "num", "int", "f32"]) for _ in range(rng.choice([1, 2]))]
+            # the second long table of every run is transposed (its lines are longer than any read buffer)
+            t, _ = wc.wf_table(rng, ";", n_long == 1 or rng.random() < 0.3, kinds=kinds, n_row=n_row)
+            cases.append((k, ";", [t], k % 2 == 0, k % 3 == 0, None, k % 16))
+            out.count("long-tables" + (":transposed" if t.metadata.transposed else ""))
             k += 1
-        for (i, sep, ts, explicit, path_mode) in cases:
+        for (i, sep, ts, explicit, path_mode, na_rep, form) in cases:
             case = {"seed": seed, "index": i, "sep": sep, "explicit_sep": explicit, "path": path_mode,
-                    "tables": [wc.table_val(t) for t in ts]}
+                    "na_rep": na_rep, "form": form, "tables": [wc.table_val(t) for t in ts]}
+            out.count("na_rep:" + repr(na_rep))
+            out.count("form:tables=" + ["list", "tuple", "generator", "bare-or-list"][form % 4])
             verdict = judge(ts, sep, explicit, path_mode, case, out, scratch)
             if verdict is None:
                 continue
@@ -169,11 +187,12 @@ def run(tier, seed, model_ok, translator, search=False):
                 tv = case["tables"]
                 rows = [l.rstrip("\n").split(sep) for l in io.StringIO(text)]
                 ext = rc.ext_tables(rows)
-                ops.append({"op": "write_csv", "tables": tv, "sep": sep, "na_rep": "-"})
+                ops.append({"op": "write_csv", "tables": tv, "sep": sep, "na_rep": na_rep if na_rep is not None else "-"})
                 pend.append(("write_csv", case, text))
                 ops.append({"op": "read_csv_path" if path_mode else "read_csv", "sep": sep, "text": text, "ext": ext})
                 pend.append(("read_csv", case, res))
-                ops.append({"op": "wf_check", "tables": tv, "sep": sep, "na_rep": "-", "ext": ext})
+                ops.append({"op": "wf_check", "tables": tv, "sep": sep, "na_rep": na_rep if na_rep is not None else "-",
+                            "ext": ext})
                 pend.append(("wf_check", case, None))
         # negative corpus: one clause of §3 violated each; model and code must agree on what is read back
         for name, sep, text in NEGATIVE:
@@ -187,11 +206,39 @@ def run(tier, seed, model_ok, translator, search=False):
                     ops.append({"op": "read_csv_path" if by_path else "read_csv", "sep": sep, "text": text,
                                 "ext": rc.ext_tables(rows)})
                     pend.append(("read_csv", {"negative": name, "text": text, "path": by_path}, res))
+        # outside the domain, on purpose: timestamps finer than a microsecond.  The writer drops the sub-microsecond
+        # digits (to_pydatetime), so such a table does not round-trip; model and code must agree on the written text
+        # and the Lean predicate must say "outside"
+        import pandas as pd
+        from pdtable import Table
+        for j, stamps in enumerate([["2020-01-02 03:04:05.123456789"], ["2021-03-04 05:06:07.000000001", "2021-03-04 00:00:00.000000000"],
+                                    ["1999-12-31 23:59:59.999999999"]]):
+            for tr in (False, True):
+                with warnings.catch_warnings():
+                    warnings.simplefilter("ignore")
+                    t = Table(pd.DataFrame({"when": pd.to_datetime(stamps).astype("datetime64[ns]"),
+                                            "n": [1.5] * len(stamps)}), name="ns", units=["datetime", "m"], transposed=tr)
+                    buf = io.StringIO()
+                    import pdtable
+                    pdtable.write_csv(t, buf, sep=";")
+                out.evaluations += 1
+                out.count("outside-domain:nanosecond-timestamps")
+                if model_ok:
+                    tv = [wc.table_val(t)]
+                    case = {"outside_domain": "ns", "index": j, "transposed": tr, "tables": tv}
+                    ops.append({"op": "write_csv", "tables": tv, "sep": ";", "na_rep": "-"})
+                    pend.append(("write_csv", case, buf.getvalue()))
+                    rows = [l.rstrip("\n").split(";") for l in io.StringIO(buf.getvalue())]
+                    ops.append({"op": "wf_check", "tables": tv, "sep": ";", "na_rep": "-", "ext": rc.ext_tables(rows + [[x.replace(" ", "T")] for x in stamps] + [stamps])})
+                    pend.append(("wf_outside", case, None))
         if model_ok:
             inside = outside = 0
             for (what, case, impl), ans in zip(pend, common.run_model(ops)):
                 if isinstance(ans, dict) and "error" in ans:
                     out.mismatch("driver error", case, impl, ans)
+                elif what == "wf_outside":
+                    if any(ans):
+                        out.mismatch("Lean wfCheck accepts a table with sub-microsecond timestamps", case, "outside", ans)
                 elif what == "wf_check":
                     inside += sum(1 for b in ans if b)
                     outside += sum(1 for b in ans if not b)
